@@ -216,6 +216,70 @@ def c11_3(ck, prog):
                     'a handshake command does not consume exactly its line (0, eol + 2): bytes after BEGIN would be eaten')
 
 
+def c11_3b(ck, prog):
+    r = ck.rule('C11.3b', 'no message bytes are read in the pass in which authentication completed (bytes that '
+                'followed BEGIN are still in the auth buffer and must reach the loader first); the dispatch status '
+                'reports remaining data whenever the loader holds a message', 'TS',
+                breaks='bytes are reordered around the end of the handshake; messages parsed before an invalid one '
+                       'are dropped depending on how the stream was chunked', floor=3)
+    TS_ = 'dbus/dbus-transport-socket.c'
+    n = 0
+    for fn in lib.prod_funcs(prog, {TS_}):
+        auth = [c for b, i, c in fn.calls('do_authentication')
+                if len(c['args']) > 3 and strip_addr(c['args'][3]) is not None]
+        if not auth or not fn.calls('do_reading'):
+            continue
+        n += 1
+        flagids = {strip_addr(c['args'][3])['id']: strip_addr(c['args'][3])['name'] for c in auth}
+
+        def on_event(user, ev, ctx, flagids=flagids):
+            if ev['ev'] == 'call':
+                if ev['e'].get('callee') == 'do_authentication' and len(ev['e']['args']) > 3 \
+                        and strip_addr(ev['e']['args'][3]) is not None:
+                    return 'authed'
+                if ev['e'].get('callee') == 'do_reading' and user == 'authed':
+                    ok = False
+                    for k, v in ctx.env.items():
+                        if k[0] == 'v' and k[1] in flagids and v == ('c', 0):
+                            ok = True
+                    if not ok:
+                        ctx.report('do_reading can run in the same pass in which do_authentication reported that '
+                                   'authentication just completed', ev['line'], key='read-after-auth')
+            return user
+        ex = Explorer(fn, init='start', on_event=on_event, track=set(flagids.values()), cap=300000).run()
+        key = '%s:no-read-in-auth-completion-pass' % fn.name
+        if ex.reports:
+            r.from_reports(ex.reports, keyfn=lambda k, rep, key=key: key)
+        else:
+            r.ok(key)
+    if n < 2:
+        raise AnalysisBroken('only %d functions combine do_authentication and do_reading' % n)
+    gs = prog.fn('_dbus_transport_get_dispatch_status', TR)
+    q = {c['id'] for b, i, c in gs.calls('_dbus_message_loader_queue_messages')}
+    pk = {c['id'] for b, i, c in gs.calls('_dbus_message_loader_peek_message')}
+    complete = prog.enums.get('DBUS_DISPATCH_COMPLETE')
+    remains = prog.enums.get('DBUS_DISPATCH_DATA_REMAINS')
+    if not q or not pk or complete is None:
+        raise AnalysisBroken('get_dispatch_status: anchors vanished')
+
+    def on_exit(user, ctx, ret, ev):
+        v = ctx.const_of(ret) if ret is not None else None
+        if any(ctx.result_known(c) is True for c in q):
+            has = [ctx.result_known(c) for c in pk]
+            if v == complete and not any(h is False for h in has):
+                ctx.report('reports COMPLETE after parsing without having found the loader queue empty (messages '
+                           'parsed before an invalid one would never be handed to the connection)', ev['line'],
+                           key='complete-with-messages')
+            if v == remains and not any(h is True for h in has):
+                ctx.report('reports DATA_REMAINS without a message in the loader', ev['line'], key='remains-empty')
+    ex = Explorer(gs, on_exit=on_exit, calls={'_dbus_message_loader_queue_messages',
+                                              '_dbus_message_loader_peek_message'}, track='auto').run()
+    if ex.reports:
+        r.from_reports(ex.reports, keyfn=lambda k, rep: 'get_dispatch_status:%s' % k)
+    else:
+        r.ok('get_dispatch_status:status-follows-loader-queue')
+
+
 def run(ck):
     ck.explanation = (
         'Static rules over dbus-message.c, dbus-marshal-header.c, dbus-transport.c, dbus-auth.c: load_message uses '
@@ -237,6 +301,7 @@ def run(ck):
         finally:
             ck.rule = save
         c11_3(ck, prog)
+        c11_3b(ck, prog)
         from rules.C05 import QUEUES, c05_4
         r4 = ck.rule('C11.4', 'the loader queue and the connection\'s incoming queue are FIFOs (shared with C05.4)',
                      'TAB', floor=4)
